@@ -109,7 +109,9 @@ pub fn control_schema<S: Serialize>(v: &S) -> Option<Schema> {
 
 /// Zero-copy blocks of a stream as recorded by the writer: (offset, size, unit).
 pub fn blocks_of(schema: &Schema) -> Vec<(usize, usize, usize)> {
-    schema.0.iter().filter(|r| r.align > 0 && r.field.ends_with(".zero")).map(|r| (r.offset, r.size, r.align)).collect()
+    // rows written through `write_bytes` carry the unit in `align` (> 0); plain `write` rows carry 0.
+    // (Padding rows have align 1 and can never be misaligned.) No dependence on row names.
+    schema.0.iter().filter(|r| r.align > 0).map(|r| (r.offset, r.size, r.align)).collect()
 }
 
 /// Largest alignment unit of any zero-copy block of the stream (1 if none).
@@ -226,5 +228,7 @@ pub fn deser_err_name(e: &epserde::deser::Error) -> String {
         E::InvalidTag(v) => format!("InvalidTag({})", v),
         E::WrongTypeHash { ser_type_hash, self_type_hash, .. } => format!("WrongTypeHash(ser={:#x},self={:#x})", ser_type_hash, self_type_hash),
         E::WrongAlignHash { ser_align_hash, self_align_hash, .. } => format!("WrongAlignHash(ser={:#x},self={:#x})", ser_align_hash, self_align_hash),
+        #[allow(unreachable_patterns)]
+        other => format!("{:?}", other),
     }
 }
